@@ -69,6 +69,19 @@ def valid_text(v):
     return gp.render(v["objs_text"], init, goals)
 
 
+MIRROR = {"<": ">", ">": "<", "<=": ">=", ">=": "<=", "=": "="}
+
+
+def canon_cmp(tree):
+    """a comparison with a numeral on the left is read with its sides swapped and the operator mirrored (the same
+    condition): storing it either way is faithful"""
+    from ..refsem import is_number
+    if isinstance(tree, list) and len(tree) == 3 and tree[0] in MIRROR and isinstance(tree[1], str) and is_number(tree[1]) \
+            and not (isinstance(tree[2], str) and is_number(tree[2])):
+        return [MIRROR[tree[0]], tree[2], tree[1]]
+    return tree
+
+
 def observe_problem(P):
     """neutral reading of the public attributes"""
     objs = {n: o.type.name for n, o in P.objects.items()}
@@ -82,7 +95,7 @@ def observe_problem(P):
         # the value is read from the public attribute, not from the printed text (printing is what C09 / C14 judge)
         fl[tuple(t[1])] = Fraction(repr(float(f.value)))
     goals = [tuple(sexp.read(g.untyped_representation)) for g in P.goal_state_predicates]
-    numgoals = sorted(sexp.dumps(norm(sexp.read(e.to_pddl()))) for e in P.goal_state_fluents)
+    numgoals = sorted(sexp.dumps(norm(canon_cmp(sexp.read(e.to_pddl())))) for e in P.goal_state_fluents)
     return {"name": P.name, "objects": objs, "atoms": atoms, "fluents": fl, "goals": goals, "numgoals": numgoals}
 
 
@@ -91,7 +104,7 @@ def expected(v):
             "atoms": {tuple(a) for a in v["atoms"]},
             "fluents": {tuple(k.split(" ")): num(n) for k, n in v["fluents"].items()},
             "goals": [tuple(a) for a in v["goals"]],
-            "numgoals": sorted(sexp.dumps(norm(sexp.read(g))) for g in v["numgoals"])}
+            "numgoals": sorted(sexp.dumps(norm(canon_cmp(sexp.read(g)))) for g in v["numgoals"])}
 
 
 def compare(want, got):
@@ -116,6 +129,7 @@ def compare(want, got):
 def check_case(case):
     r = CaseResult()
     if case["kind"] == "valid-batch":
+        earlier = None
         for v in case["items"]:
             text = valid_text(v)
             # the independent reader must agree with the generator on what the text says
@@ -140,6 +154,15 @@ def check_case(case):
                     r.fail(clause, f"{detail}\n{text}", None, None, tags=tags)
             else:
                 r.outcome("valid-faithful")
+            # the problem parsed before this one over the same Domain object still reads as it did
+            if earlier is not None:
+                again = guard(observe_problem, earlier[0])
+                if isinstance(again, Raised) or compare(earlier[1], again):
+                    r.outcome("earlier-problem-changed")
+                    r.fail("earlier-problem-changed", f"after this problem was parsed over the same Domain object, the problem "
+                           f"parsed before it reads {again if isinstance(again, Raised) else compare(earlier[1], again)[:2]}\n"
+                           f"earlier:\n{earlier[2]}\nthis:\n{text}", None, None, tags=tags + ["earlier-problem"])
+            earlier = (P, got, text) if not diffs else None
             if len(v["atoms"]) + len(v["fluents"]) >= 2:
                 r.nontrivial = True
             if len(r.fails) >= 4:
